@@ -23,6 +23,13 @@ impl SourceFileMap {
         self.file_line_ranges.push(SourceLineRanges::default());
     }
 
+    /// Records the ranges of a numbered file line whose definition was *not*
+    /// stored in the program (it was empty or couldn't be tokenized), so any
+    /// earlier definition of the same BASIC line keeps its mapping.
+    pub(crate) fn add_unstored(&mut self, ranges: SourceLineRanges) {
+        self.file_line_ranges.push(ranges);
+    }
+
     pub(crate) fn add(&mut self, basic_line: u64, ranges: SourceLineRanges) {
         let file_line_number = self.file_line_ranges.len();
         self.basic_lines_to_file_lines
